@@ -16,6 +16,28 @@ CLAIMS = {
             "consumer, and run_sat's filter on value==true/not-yet-encoded. These are exactly the mechanisms whose removal keeps "
             "all snapshots identical; which solvables the search visits is not decided.",
             "DESIGN.md section 4 C09"),
+    "C10": ("closure-upvar type facts + RefCell-guard liveness across Yield + post-dominance of the in-flight hand-off (pre-transform coroutine MIR)",
+            "Decides the three structural preconditions of schedule independence that the anchors name: queued futures capture "
+            "only shared refs/Copy ids and all mutation is in sync &mut self consumers; no RefCell guard is live across any "
+            "suspension point (a violation panics under exactly the overlapping interleavings); after an in-flight registration the "
+            "result insert, marker removal and notify(usize::MAX) are on every completing path with no Yield between publish and "
+            "notify, and listeners re-read the result. All-paths CFG facts cover every interleaving's code path; equality of "
+            "verdicts across schedules is not decided.",
+            "DESIGN.md section 4 C10"),
+    "C11": ("suspension-point/loop analysis on coroutine MIR (Yield inside natural loops), who-creates-futures census, push post-dominance",
+            "Decides C11's structure: no .await inside a user loop on the solver path except the single drain of the "
+            "FuturesUnordered; the initial queueing loop does not suspend; consumers/queue_* cannot suspend, block, or create cache "
+            "futures themselves; per-version-set fetches are joined with try_join_all; every queued async block reaches "
+            "FuturesUnordered::push. The property is structural (what is issued before the solver blocks), so a path-quantified "
+            "rule is the right level; no timing is measured.",
+            "DESIGN.md section 4 C11"),
+    "C13": ("store-dominance of the state reset, who-may-write census over Solver fields, cancellation-safety typestate (acquire / Yield / Drop-guard) on coroutine MIR",
+            "Decides the structural clause of C13: solve() resets self.state before anything else; nothing outside `state` is ever "
+            "written after construction (so the cache persists and per-solve data cannot leak); every manual acquire in a "
+            "RefCell-held cache map that is held across a suspension point is backed by a live guard whose Drop releases it (a "
+            "cancelled future runs only destructors); the availability query answers only from the dependencies map/hint bits. "
+            "Verdict equality with a fresh solver is not decided.",
+            "DESIGN.md section 4 C13"),
     "C12": ("MIR guard-dominance + def-use + must-use census (rustc_private driver)",
             "Decides the structural clause of C12 on every path of the type-checked MIR: each solver-side provider fetch is "
             "dominated by the None edge of a cancellation poll with no suspension point in between and the Some edge returns "
